@@ -165,6 +165,41 @@ where
     assert!(D::lossy_from(i).to_bits() == want.wrapped, "LossyFrom<int> is exact");
 }
 
+/// LossyFrom fixed -> primitive integer: floor of the value, never out of range
+pub fn lossy_fi<S, I>()
+where
+    S: Fixed,
+    I: Raw + LossyFrom<S>,
+    S::Bits: Raw,
+{
+    let a = <S::Bits as Raw>::any();
+    let x = S::from_bits(a);
+    let (sn, sa) = a.neg_abs();
+    let (rn, rm) = rescale_sm(sn, sa, S::frac_nbits(), 0);
+    let want = settle_sm::<I>(rn, rm);
+    kani::cover!(sn || !<S::Bits as Raw>::SIGNED, "W:negative source (or unsigned)");
+    assert!(!want.overflow, "LossyFrom<fixed> for int: the floor of every source value fits");
+    assert!(I::lossy_from(x) == want.wrapped, "LossyFrom<fixed> for int drops only fractional bits (toward minus infinity)");
+    let y: I = x.lossy_into();
+    assert!(y == want.wrapped, "LossyInto agrees");
+}
+
+/// From fixed (no fractional bits) -> primitive integer: value preserved
+pub fn from_fi<S, I>()
+where
+    S: Fixed,
+    I: Raw + From<S>,
+    S::Bits: Raw,
+{
+    let a = <S::Bits as Raw>::any();
+    let x = S::from_bits(a);
+    let (sn, sa) = a.neg_abs();
+    let want = settle_sm::<I>(sn && sa != 0, U256 { hi: 0, lo: sa });
+    kani::cover!(sa != 0, "W:non-zero");
+    assert!(S::frac_nbits() == 0 && !want.overflow, "From<fixed> for int exists only for integer layouts that fit");
+    assert!(I::from(x) == want.wrapped, "From<fixed> for int preserves the value");
+}
+
 pub trait MinMax {
     const MINV: Self;
     const MAXV: Self;
